@@ -3,10 +3,12 @@
 mod alloc_count;
 mod catalogue;
 mod engine;
+mod m_clone;
 mod m_dict;
 mod m_huff;
 mod m_index;
 mod m_life;
+mod m_stack;
 mod props;
 mod spec;
 
